@@ -22,6 +22,11 @@ class ToolError(Exception):
     pass
 
 
+class StopWithViolations(Exception):
+    """the code under test killed the harness process (abort, stack overflow, watchdog): the violation is already recorded in the
+    Report, nothing more can be explored in this run; ./check finishes the report (exit 1 + VIOLATION line)."""
+
+
 def log(*a):
     print("[check]", *a, flush=True)
 
